@@ -61,11 +61,14 @@ fn main() {
 
     let thorough = !ctx.quick();
     ctx.set_rule(
-        "alphabet: 7 RRset kinds x 3 algorithms x key layouts (63 base cases), each signed by hickory's own signer; per base \
-         EVERY single-bit flip of the answer response and of the DNSKEY response (whole message), ~150 single-field \
+        "alphabet: 9 RRset kinds (A x1/x2/x3, TXT, MX, NS, CNAME, wildcard A, apex TXT) x 5 algorithms (ED25519, ECDSAP256, ECDSAP384, RSASHA256, \
+         RSASHA512) x key layouts (126 base cases), each signed by hickory's own signer; per base \
+         [quick: the Ed25519 bases in layouts L1, L2, the A x1 single-key base of every algorithm, the P-256 wildcard bases] EVERY single-bit flip of the answer response and of the DNSKEY response (whole message), ~150 single-field \
          replacements / re-made RRSIGs (type covered, labels 0..n+1, original TTL, key tag, algorithm, signer name, other \
          keys: other ZSK, no-ZONE key, revoked key, injected attacker key, sibling-zone key) / records added-removed / \
-         received TTLs / DNSKEY-set edits, an injection family (ONE extra record at every position of the answer section that \
+         received TTLs / DNSKEY-set edits, SEVERAL RRSIGs over the RRset in every order (all ordered pairs of {valid, expired, future, wrong key tag, broken, \
+         50 s left, other key, sibling zone}, ordered triples, a valid one behind 7..10 broken ones; before / after the records), \
+         an injection family (ONE extra record at every position of the answer section that \
          differs from a genuine record in exactly one of RDATA / class {CH,HS,NONE,ANY,0x00fe} / TTL / owner case / owner, plus \
          class + new RDATA), a clock grid (now = inception/expiration -2..+2, midpoints, +-2^31; windows \
          plain, across the u32 wrap, lengths 0,1,2^31-1,2^31,2^31+1) applied to the answer RRSIG and to the DNSKEY RRSIG, \
@@ -115,10 +118,20 @@ fn main() {
     ctx.par_run(bases.len() as u64, 1, |i, _l| {
         let b = &bases[i as usize];
         let mut v = vec![];
-        v.push(Block::Flip(FlipBlock::new(b)));
+        // quick tier: every single-bit flip (and the clock grid) for the Ed25519 bases in layouts L1, L2
+        // (A x1: all layouts), the A x1 single-key base of every other algorithm and the P-256
+        // wildcard bases; thorough: all bases
+        let l12 = b.name.ends_with("/L1") || b.name.ends_with("/L2");
+        let core = (b.name.contains("ED25519") && (l12 || b.name.starts_with("A1/"))) || (b.name.starts_with("A1/") && b.name.ends_with("/L1")) || (b.name.starts_with("WILDA/") && l12 && b.name.contains("ECDSAP256"));
+        if thorough || core {
+            v.push(Block::Flip(FlipBlock::new(b)));
+        }
         v.push(Block::List(gen::field_replacements(b)));
         v.push(Block::List(gen::injections(b)));
-        v.push(Block::List(gen::clock_grid(b, thorough)));
+        v.push(Block::List(gen::multi_sigs(b, thorough, thorough || b.name.contains("ED25519"))));
+        if thorough || core {
+            v.push(Block::List(gen::clock_grid(b, thorough)));
+        }
         build.lock().unwrap().push((i as usize, v));
     });
     let mut built = build.into_inner().unwrap();
